@@ -268,7 +268,7 @@ async def run_one(flavor, c, cnt, v):
             v("origin-request-count", f"{len(origin.requests)} requests reached the origin", ctx)
         elif c["body"] and bytes(origin.requests[0].body) != b"".join(body_parts):
             v("origin-body-wrong", f"{len(origin.requests[0].body)} bytes", ctx)
-        elif "target" in ext and origin.requests[0].target != ext["target"]:
+        elif "target" in ext and not (kind in ("http", "https") and not tls) and origin.requests[0].target != ext["target"]:
             v("origin-target-wrong", f"{origin.requests[0].target!r} != {ext['target']!r}", ctx)
         if tls and origin.requests:
             want_sni = c.get("sni") or c["host"]
